@@ -16,7 +16,7 @@ R = S.req
 
 def judge(sc, events, name):
     doc = [{"id": name, "events": [se.tla_cfg(sc, se.status_texts())] + [se.slim_event(e) for e in events[1:]]}]
-    p = os.path.join(core.OUT, "traces", "selftest.json")
+    p = os.path.join(core.OUT, "traces", str(os.getpid()), "selftest.json")
     os.makedirs(os.path.dirname(p), exist_ok=True)
     json.dump(doc, open(p, "w"))
     r = tlc.run("TraceSession", "TraceSession.cfg", workers=1, env={"TRACE_FILE": p}, timeout=300)
@@ -84,7 +84,8 @@ def main(tier="quick", seed=0):
     import subprocess
     if shutil.which("python3-vt"):
         doc = {"id": "selftest", "events": [dict(se.tla_cfg(sc, se.status_texts()))] + [se.slim_event(e) for e in base[1:]]}
-        p = os.path.join(core.OUT, "traces", "selftest_schema.json")
+        p = os.path.join(core.OUT, "traces", str(os.getpid()), "selftest_schema.json")
+        os.makedirs(os.path.dirname(p), exist_ok=True)
         json.dump(doc, open(p, "w"))
         code = ("import json, jsonschema, sys; jsonschema.validate(json.load(open(sys.argv[1])), json.load(open(sys.argv[2])))")
         r = subprocess.run(["python3-vt", "-c", code, p, os.path.join(tlc.HOME, "schemas", "session_trace.schema.json")], capture_output=True, text=True)
